@@ -535,21 +535,63 @@ theorem reload_equiv_entries (st : St) (hex : Exact st) (hsil : st.silent = [])
     obtain ⟨j, hj, _⟩ := reload_lookup_complete st.store sd s i' _ hi' ho2
     exact ⟨j, hj⟩
 
-/-- what C08 needs of the live indexes (C11's invariant, in the terms used here): the live id index
-    returns exactly the entry that carries the id, nothing under None, and the live pending set is the
-    set of entries with a change stamp on a side that has an id -/
+/-- a change stamp on a side whose id is truthy (the live rule of `updated(key="changed")`) -/
+def _root_.CS.Codec.Entry.pendingTruthy (e : Entry) : Bool :=
+  (e.s0.oid.truthy && e.s0.changed.truthy) || (e.s1.oid.truthy && e.s1.changed.truthy)
+
+/-- what C08 needs of the live indexes — exactly what C11 proves of every reachable state
+    (`CS.State.live_index_ok`): the live id index returns exactly the entry that carries a string id,
+    nothing under None, and every entry with a change stamp on a side that has a (truthy) id is pending.
+    (The converse of the last clause is false of live states: C11's open finding
+    `pending-flag-without-id`, here `pending_set_after_reload_narrower`.) -/
 structure LiveIndexOK (st : St) : Prop where
   sound : ∀ (sd : Sd) (s : String) (i : Nat), lookupOid st sd (.str s) = some i →
     ∃ e, st.ents[i]? = some e ∧ (e.side sd).oid = .str s
   complete : ∀ (sd : Sd) (s : String) (i : Nat) (e : Entry), st.ents[i]? = some e → (e.side sd).oid = .str s →
     lookupOid st sd (.str s) = some i
   none_absent : ∀ (sd : Sd), lookupOid st sd .nil = none
-  pending : ∀ i, i ∈ st.changeset ↔ ∃ e, st.ents[i]? = some e ∧ e.pendingOnLoad = true
+  pending : ∀ (i : Nat) (e : Entry), st.ents[i]? = some e → e.pendingTruthy = true → i ∈ st.changeset
 
-/-- **Reload equivalence.**  On exact storage, with representable entries and consistent live
-    indexes (C11): for every side and every key that is None or a string, the state rebuilt from
-    storage answers `lookup_oid` with the reloaded image of exactly the entry the live state answers
-    with (nothing if the live state has nothing), and the same rows are pending. -/
+theorem not_trash_of_pendingOnLoad (e : Entry) (h : e.pendingOnLoad = true) : e.isTrash = false := by
+  cases ht : e.isTrash
+  · rfl
+  · simp [Entry.pendingOnLoad, Entry.isTrash] at h ht; simp [ht.1, ht.2] at h
+
+/-- **The pending set after a reload, exactly** (no hypothesis on the live indexes): on exact storage
+    with representable entries, the rows that are pending in the rebuilt state are precisely the rows of
+    the live entries that carry a change stamp on a side that has an id. -/
+theorem reload_pending_exact (st : St) (hex : Exact st) (hsil : st.silent = [])
+    (hrep : ∀ (i : Nat) (e : Entry), st.ents[i]? = some e → e.isTrash = false → e.Rep ∧ e.MtimeOk) (k : Nat) :
+    (∃ (j : Nat) (e' : Entry), j ∈ (reload st.store).changeset ∧ (reload st.store).ents[j]? = some e' ∧ e'.storageId = some k) ↔
+    (∃ (i : Nat) (e : Entry), st.ents[i]? = some e ∧ e.storageId = some k ∧ e.pendingOnLoad = true) := by
+  constructor
+  · rintro ⟨j, e', hjc, hje, hk'⟩
+    obtain ⟨e'', hje', hp⟩ := (reload_pending_spec st.store j).1 hjc
+    rw [hje] at hje'; injection hje' with hje'; subst hje'
+    have hmem : e' ∈ loadedEntries (rowsOf st.store) := by
+      rw [← reload_ents]; exact List.mem_of_getElem? hje
+    obtain ⟨k0, row, hrow, hd⟩ := (mem_loadedEntries _ _).1 hmem
+    obtain ⟨i, e, hei, ht, hk, heq⟩ := exact_row_decodes st hex hsil hrep k0 row e' hrow hd
+    subst heq
+    have : k0 = k := by simpa [Entry.reloaded] using hk'
+    subst this
+    rw [reloaded_pending] at hp
+    exact ⟨i, e, hei, hk, hp⟩
+  · rintro ⟨i, e, hei, hk, hp⟩
+    obtain ⟨k0, j, hk0, hj⟩ := exact_entry_reloaded st hex hsil hrep i e hei (not_trash_of_pendingOnLoad e hp)
+    rw [hk] at hk0; injection hk0 with hk0; subst hk0
+    exact ⟨j, e.reloaded k, (reload_pending_spec st.store j).2 ⟨_, hj, by rw [reloaded_pending]; exact hp⟩, hj, rfl⟩
+
+/-- **Reload equivalence — what is true.**  On exact storage, with representable entries and the live
+    index facts C11 proves (`LiveIndexOK`):
+    (1) for every side and every key that is None or a string, the state rebuilt from storage answers
+        `lookup_oid` with the reloaded image of exactly the entry the live state answers with (nothing if
+        the live state has nothing);
+    (2) the pending set of the rebuilt state is *narrower or equal*: a row is pending after the reload iff
+        its live entry carries a change stamp on a side that has an id (`reload_pending_exact`), and every
+        such entry whose stamped side's id is truthy is pending in the live state as well.
+    The live pending set can be strictly wider — entries whose stamped sides all lack an id (and trash
+    entries, which have no row): `pending_set_after_reload_narrower`. -/
 theorem reload_equiv (st : St) (hex : Exact st) (hsil : st.silent = [])
     (hrep : ∀ (i : Nat) (e : Entry), st.ents[i]? = some e → e.isTrash = false → e.Rep ∧ e.MtimeOk)
     (hix : LiveIndexOK st) :
@@ -557,8 +599,9 @@ theorem reload_equiv (st : St) (hex : Exact st) (hsil : st.silent = [])
       (lookupOid (reload st.store) sd key).bind (fun j => (reload st.store).ents[j]?) =
       (lookupOid st sd key).bind (fun i => (st.ents[i]?).bind (fun e => e.storageId.map e.reloaded))) ∧
     (∀ k : Nat,
-      (∃ (j : Nat) (e' : Entry), j ∈ (reload st.store).changeset ∧ (reload st.store).ents[j]? = some e' ∧ e'.storageId = some k) ↔
-      (∃ (i : Nat) (e : Entry), i ∈ st.changeset ∧ st.ents[i]? = some e ∧ e.storageId = some k)) := by
+      (∃ (j : Nat) (e' : Entry), j ∈ (reload st.store).changeset ∧ (reload st.store).ents[j]? = some e' ∧ e'.storageId = some k) →
+      ∃ (i : Nat) (e : Entry), st.ents[i]? = some e ∧ e.storageId = some k ∧ e.pendingOnLoad = true ∧
+        (e.pendingTruthy = true → i ∈ st.changeset)) := by
   constructor
   · intro sd key hkey
     rcases hkey with hkey | ⟨s, hkey⟩
@@ -581,30 +624,43 @@ theorem reload_equiv (st : St) (hex : Exact st) (hsil : st.silent = [])
         rw [hl] at this; injection this with this; subst this
         rw [hei] at hei'; injection hei' with hei'; subst hei'
         simp [hj, hje, hei, hk]
-  · intro k
-    constructor
-    · rintro ⟨j, e', hjc, hje, hk'⟩
-      obtain ⟨e'', hje', hp⟩ := (reload_pending_spec st.store j).1 hjc
-      rw [hje] at hje'; injection hje' with hje'; subst hje'
-      have hmem : e' ∈ loadedEntries (rowsOf st.store) := by
-        rw [← reload_ents]; exact List.mem_of_getElem? hje
-      obtain ⟨k0, row, hrow, hd⟩ := (mem_loadedEntries _ _).1 hmem
-      obtain ⟨i, e, hei, ht, hk, heq⟩ := exact_row_decodes st hex hsil hrep k0 row e' hrow hd
-      subst heq
-      have : k0 = k := by simpa [Entry.reloaded] using hk'
-      subst this
-      rw [reloaded_pending] at hp
-      exact ⟨i, e, (hix.pending i).2 ⟨e, hei, hp⟩, hei, hk⟩
-    · rintro ⟨i, e, hic, hei, hk⟩
-      obtain ⟨e0, hei0, hp⟩ := (hix.pending i).1 hic
-      rw [hei] at hei0; injection hei0 with hei0; subst hei0
-      have ht : e.isTrash = false := by
-        cases h : e.isTrash
-        · rfl
-        · simp [Entry.pendingOnLoad, Entry.isTrash] at hp h; simp [h.1, h.2] at hp
-      obtain ⟨k0, j, hk0, hj⟩ := exact_entry_reloaded st hex hsil hrep i e hei ht
-      rw [hk] at hk0; injection hk0 with hk0; subst hk0
-      exact ⟨j, e.reloaded k, (reload_pending_spec st.store j).2 ⟨_, hj, by rw [reloaded_pending]; exact hp⟩, hj, rfl⟩
+  · intro k hr
+    obtain ⟨i, e, hei, hk, hp⟩ := (reload_pending_exact st hex hsil hrep k).1 hr
+    exact ⟨i, e, hei, hk, hp, fun ht => hix.pending i e hei ht⟩
+
+/-- when every id is None or truthy (no `''`, `0`, `b''` … used as an id) the two stamps coincide, so
+    every row that is pending after the reload is pending in the live state -/
+theorem reload_pending_subset (st : St) (hex : Exact st) (hsil : st.silent = [])
+    (hrep : ∀ (i : Nat) (e : Entry), st.ents[i]? = some e → e.isTrash = false → e.Rep ∧ e.MtimeOk)
+    (hix : LiveIndexOK st)
+    (hids : ∀ (i : Nat) (e : Entry) (sd : Sd), st.ents[i]? = some e → (e.side sd).oid.isNone = false → (e.side sd).oid.truthy = true)
+    (k : Nat)
+    (hr : ∃ (j : Nat) (e' : Entry), j ∈ (reload st.store).changeset ∧ (reload st.store).ents[j]? = some e' ∧ e'.storageId = some k) :
+    ∃ (i : Nat) (e : Entry), i ∈ st.changeset ∧ st.ents[i]? = some e ∧ e.storageId = some k := by
+  obtain ⟨i, e, hei, hk, hp, hc⟩ := (reload_equiv st hex hsil hrep hix).2 k hr
+  refine ⟨i, e, hc ?_, hei, hk⟩
+  have h0 := hids i e false hei
+  have h1 := hids i e true hei
+  simp only [Entry.side] at h0 h1
+  simp only [Entry.pendingOnLoad, Bool.or_eq_true, Bool.and_eq_true, Bool.not_eq_true'] at hp
+  simp only [Entry.pendingTruthy, Bool.or_eq_true, Bool.and_eq_true]
+  rcases hp with ⟨a, b⟩ | ⟨a, b⟩
+  · exact Or.inl ⟨h0 a, b⟩
+  · exact Or.inr ⟨h1 a, b⟩
+
+/-- **the live pending set is not contained in the reloaded one** (kernel-checked; open finding
+    `pending-set-after-reload-narrower`, root cause C11's `pending-flag-without-id`): a change stamp on
+    an id-less side, then the *other* side gets an id — `_change_oid` makes the entry pending because
+    "a side is stamped", the loader (and `updated(key="changed")`) only count stamps on sides that have
+    an id.  The entry is live, stored, pending before the reload and not after it. -/
+def narrowerOps : List Op :=
+  [ .new .file, .write (.side 0 false (.plain .changed (.val (.int 5)))), wOid 0 true (.str "b"), .commit ]
+
+theorem pending_set_after_reload_narrower :
+    let st := run (St.init (.sqlite [])) narrowerOps
+    st.dirty = [] ∧ st.silent = [] ∧ (st.ents.map Entry.isTrash) = [false] ∧ (rowsOf st.store).map (·.1) = [1] ∧
+    st.changeset = [0] ∧ (reload st.store).changeset = [] ∧ (reload st.store).ents.length = 1 ∧
+    (st.ents.map Entry.pendingOnLoad) = [false] := by decide
 
 /-- the repaired findings on their exact replays (kernel-checked): after the reload nothing answers
     to None, and a change stamp on an id-less side is not pending -/
